@@ -12,7 +12,7 @@ git apply "$PATCH" || { echo "seedrun: patch does not apply" >&2; exit 2; }
 cd /verif
 TIER="${SEED_TIER:-quick}"
 for id in "$@"; do
-  out=$(./check "$id" "$TIER" 2>&1); rc=$?
+  out=$(timeout -k 5 ${SEED_TIMEOUT:-1500} ./check "$id" "$TIER" 2>&1); rc=$?
   nv=$(echo "$out" | grep -c '^VIOLATION')
   first=$(echo "$out" | grep -m1 'violation:' | cut -c1-220)
   echo "$id rc=$rc violations_lines=$nv $first"
